@@ -128,12 +128,12 @@ func (k *Keys) convertMeta(read []byte) []byte {
 // yet marking this key as having matched a bind command.
 func PopKey(keys *Keys) (key byte, empty bool) {
 	switch {
-	case len(keys.buf) > 0:
-		key = keys.buf[0]
-		keys.buf = keys.buf[1:]
 	case len(keys.macroKeys) > 0:
 		key = byte(keys.macroKeys[0])
 		keys.macroKeys = keys.macroKeys[1:]
+	case len(keys.buf) > 0:
+		key = keys.buf[0]
+		keys.buf = keys.buf[1:]
 	default:
 		return byte(0), true
 	}
@@ -144,10 +144,10 @@ func PopKey(keys *Keys) (key byte, empty bool) {
 // PeekKey returns the first key in the stack, without removing it.
 func PeekKey(keys *Keys) (key byte, empty bool) {
 	switch {
-	case len(keys.buf) > 0:
-		key = keys.buf[0]
 	case len(keys.macroKeys) > 0:
 		key = byte(keys.macroKeys[0])
+	case len(keys.buf) > 0:
+		key = keys.buf[0]
 	default:
 		return byte(0), true
 	}
@@ -220,12 +220,12 @@ func MatchedPrefix(keys *Keys, prefix ...byte) {
 // escape has been handled specially as a Vim escape.
 func PopForce(keys *Keys) (key byte, empty bool) {
 	switch {
-	case len(keys.buf) > 0:
-		key = keys.buf[0]
-		keys.buf = keys.buf[1:]
 	case len(keys.macroKeys) > 0:
 		key = byte(keys.macroKeys[0])
 		keys.macroKeys = keys.macroKeys[1:]
+	case len(keys.buf) > 0:
+		key = keys.buf[0]
+		keys.buf = keys.buf[1:]
 	default:
 		return byte(0), true
 	}
@@ -276,15 +276,15 @@ func (k *Keys) ReadKey() (key rune, isAbort bool) {
 	}()
 
 	switch {
+	case len(k.macroKeys) > 0:
+		key = k.macroKeys[0]
+		k.macroKeys = k.macroKeys[1:]
+
 	case len(k.buf) > 0:
 		// Keys that were read along with the command's own.
 		var size int
 		key, size = utf8.DecodeRune(k.buf)
 		k.buf = k.buf[size:]
-
-	case len(k.macroKeys) > 0:
-		key = k.macroKeys[0]
-		k.macroKeys = k.macroKeys[1:]
 
 	case k.waiting:
 		buf := <-k.keysOnce
@@ -330,12 +330,12 @@ func (k *Keys) firstKey(read []byte) rune {
 // to select-inside. This function Pop() will thus return the quote.)
 func (k *Keys) Pop() (key byte, empty bool) {
 	switch {
-	case len(k.buf) > 0:
-		key = k.buf[0]
-		k.buf = k.buf[1:]
 	case len(k.macroKeys) > 0:
 		key = byte(k.macroKeys[0])
 		k.macroKeys = k.macroKeys[1:]
+	case len(k.buf) > 0:
+		key = k.buf[0]
+		k.buf = k.buf[1:]
 	default:
 		return byte(0), true
 	}
